@@ -5,7 +5,8 @@ from . import common as C
 
 THEORY = ["theories/Base/ListExtra.v", "theories/Base/Bytes.v", "theories/Base/Crc.v", "theories/Base/Parser.v",
           "theories/Base/Prog.v", "theories/Format/Structs.v", "theories/Manifest/SetLocation.v", "theories/Content/Pack.v",
-          "theories/Dir/Layout.v", "theories/Dir/DirModel.v", "theories/Container/Reader.v", "theories/Container/Proofs.v", "theories/Container/Embed.v", "theories/Container/EmbedPacks.v"]
+          "theories/Dir/Layout.v", "theories/Dir/DirModel.v", "theories/Container/Reader.v", "theories/Container/Proofs.v", "theories/Container/Embed.v", "theories/Container/EmbedPacks.v",
+          "theories/Format/Roundtrips.v", "theories/Content/FilePack.v", "theories/Container/ManifestFile.v", "theories/Container/ContainerFile.v", "theories/Container/EndToEnd.v"]
 
 
 def case_text(c, seed):
